@@ -25,6 +25,8 @@ const QSETS: &[QuerySet] = &[
     QuerySet { id: "stmt0", lang: "stmt", tags: include_str!("stmt_tags.scm"), locals: "" },
     // nested names (queue order by (end, start)) and names spanning rows
     QuerySet { id: "stmtn", lang: "stmt", tags: include_str!("stmtn_tags.scm"), locals: "" },
+    // a match that arrives after later names were flushed (corpus only)
+    QuerySet { id: "stmto", lang: "stmt", tags: include_str!("stmto_tags.scm"), locals: "" },
 ];
 
 fn strip_id(re: &str) -> usize {
